@@ -292,6 +292,203 @@ theorem normCodec_idem (h : EnvLaws env) : ∀ (n : Nat) (c : Codec) (g : GoVal)
   | 0 => fun _ _ hok => by simp [RTOk] at hok
   | n + 1 => idem_step env h n (normCodec_idem h n)
 
+/-! ### the identity on plain values -/
+
+/-- every schema field of the record has a target holding a `P`-value -/
+def PlainFields (P : Codec → GoVal → Prop) : List Codec → List (Option Nat) → List GoVal → Prop
+  | [], [], _ => True
+  | c :: cs, some i :: ts, fs => (∃ g, fs[i]? = some g ∧ P c g) ∧ PlainFields P cs ts fs
+  | _, _, _ => False
+
+/-- **Plain values**: those on which none of the documented normalisations (and none of the codecs'
+truncations) can act:
+* no nil map (`nil` and empty maps are identified; the reader delivers a non-nil map);
+* no nil pointer to a slice or map (it is written as the empty collection);
+* a union member that is omitted (nil pointer, omitempty zero, invalid wrapper, zero time) is the zero
+  value itself (so: no `-0.0` in an omitempty field, no payload in an invalid wrapper);
+* a `null.*` wrapper outside a union is valid (an invalid one is written as its payload);
+* times: printable under the string codec; UTC, a multiple of the resolution and an int64 number of
+  nanoseconds under the long codecs; UTC midnight under the date codec;
+* floats crossing a float32/float64 conversion are not changed by it;
+* a struct has the fields of its codec's zero struct, and those the schema does not mention are zero
+  (they are never written). -/
+def Plain (env : Env) : Nat → Codec → GoVal → Prop
+  | 0, _, _ => True
+  | n + 1, c, g =>
+    match c, g with
+    | .null, g => g = .unit
+    | .f32double _, .f32 b => ¬ SNaN32 b
+    | .array item _, .slice items => ∀ x ∈ items, Plain env n item x
+    | .map val _, .map nl _ vs => nl = false ∧ ∀ x ∈ vs, Plain env n val x
+    | .pointer c', .ptr none =>
+      ¬ ((∃ i o, Codec.stripPtr c' = .array i o) ∨ (∃ v o, Codec.stripPtr c' = .map v o))
+    | .pointer c', .ptr (some x) => Plain env n c' x
+    | .record z cs ts, .struct fs =>
+      PlainFields (Plain env n) cs ts fs ∧ fs.length = z.length ∧ ∀ j, some j ∉ ts → fs[j]? = z[j]?
+    | .unionOne c' _, g => if omits env c' g = true then g = Codec.zero env c' else Plain env n c' g
+    | .timeString, .time t => t.Printable
+    | .timeLong mult, .time t =>
+      (mult = 1 ∨ mult = 1000 ∨ mult = 1000000) ∧ t.off = 0 ∧ t.nsec < 1000000000 ∧
+      (t.unix * 1000000000 + t.nsec) % mult = 0 ∧ inRange 64 (t.unix * 1000000000 + t.nsec)
+    | .date, .time t => t.off = 0 ∧ t.nsec = 0 ∧ t.unix % 86400 = 0
+    | .nullw k, .nullw valid inner =>
+      valid = true ∧
+      match k, inner with
+      | .float, .f64 d => ∃ b, ¬ SNaN32 b ∧ d = env.widen b
+      | .time, .time t => t.Printable
+      | _, _ => True
+    | _, _ => True
+
+theorem map_eq_self {α : Type} {f : α → α} : ∀ {l : List α}, (∀ x ∈ l, f x = x) → l.map f = l
+  | [], _ => rfl
+  | a :: l, h => by
+    simp only [List.map_cons, h a (by simp), map_eq_self (l := l) fun x hx => h x (by simp [hx])]
+
+theorem listSet_length {α : Type} : ∀ (xs : List α) (i : Nat) (a : α), (listSet xs i a).length = xs.length
+  | [], _, _ => rfl
+  | _ :: _, 0, _ => rfl
+  | _ :: xs, i + 1, a => by simp [listSet, listSet_length xs i a]
+
+theorem normFieldsWith_plain (f : Codec → GoVal → GoVal) (P : Codec → GoVal → Prop) (fs : List GoVal)
+    (hf : ∀ c g, P c g → f c g = g) :
+    ∀ (cs : List Codec) (ts : List (Option Nat)) (acc : List GoVal), PlainFields P cs ts fs →
+      acc.length = fs.length → (∀ j, some j ∉ ts → acc[j]? = fs[j]?) →
+      normFieldsWith f cs ts fs acc = fs
+  | [], [], acc, _, _, hj => by
+    simp only [normFieldsWith]
+    exact List.ext_getElem? fun j => hj j (by simp)
+  | [], _ :: _, _, h, _, _ => by simp [PlainFields] at h
+  | _ :: _, [], _, h, _, _ => by simp [PlainFields] at h
+  | _ :: _, none :: _, _, h, _, _ => by simp [PlainFields] at h
+  | c :: cs, some i :: ts, acc, h, hl, hj => by
+    obtain ⟨⟨g, hg, hP⟩, hrest⟩ := h
+    simp only [normFieldsWith, hg, hf c g hP]
+    have hi : i < acc.length := by
+      rw [hl]
+      exact (List.getElem?_eq_some_iff.mp hg).1
+    apply normFieldsWith_plain f P fs hf cs ts _ hrest (by rw [listSet_length, hl])
+    intro j hjn
+    by_cases hij : i = j
+    · subst hij
+      rw [listSet_getElem?_eq acc i g acc[i] (by simp [hi]), hg]
+    · rw [listSet_getElem?_ne _ _ _ _ hij]
+      exact hj j (by simp [hjn, Ne.symm hij])
+
+theorem normTime_printable (h : EnvLaws env) (t : TimeVal) (ht : t.Printable) : normTime env t = t := by
+  have he : (env.fmtTime t).isEmpty = false := by simpa [List.isEmpty_iff] using h.fmt_ne t
+  simp [normTime, he, h.parse_fmt t ht]
+
+/-- a printable time satisfies the string codecs' side condition -/
+theorem timeRT_of_printable (h : EnvLaws env) (t : TimeVal) (ht : t.Printable) : TimeRT env t :=
+  ⟨h.fmt_ne t, t, h.parse_fmt t ht, rfl, h.fmt_ne t, h.parse_fmt t ht⟩
+
+theorem timeLong_plain (h : EnvLaws env) (mult : Int) (t : TimeVal)
+    (hm : mult = 1 ∨ mult = 1000 ∨ mult = 1000000) (hoff : t.off = 0) (hns : t.nsec < 1000000000)
+    (hmod : (t.unix * 1000000000 + t.nsec) % mult = 0) (hr : inRange 64 (t.unix * 1000000000 + t.nsec)) :
+    env.ofNanos (wrap64 (longOf mult t * mult)) = t := by
+  have hl : longOf mult t * mult = t.unix * 1000000000 + t.nsec := by
+    unfold longOf
+    rcases hm with rfl | rfl | rfl
+    · simp only [if_true]; rw [wrap64_id hr]; omega
+    · simp only [show ¬ ((1000 : Int) = 1) by decide, show ¬ ((1000 : Int) = 1000000) by decide, if_false]
+      rw [Int.fdiv_eq_ediv_of_nonneg _ (by decide)]; omega
+    · simp only [show ¬ ((1000000 : Int) = 1) by decide, if_false, if_true]
+      rw [Int.fdiv_eq_ediv_of_nonneg _ (by decide)]; omega
+  rw [hl, wrap64_id hr, h.ofNanos_eq]
+  cases t with
+  | mk u ns off =>
+    simp only at hoff hns ⊢
+    subst hoff
+    simp only [TimeVal.mk.injEq, and_true]
+    constructor <;> omega
+
+def PlainAt (n : Nat) : Prop := ∀ c g, Plain env n c g → normCodec env n c g = g
+
+theorem plain_step (h : EnvLaws env) (n : Nat) (ih : PlainAt env n) : PlainAt env (n + 1) := by
+  intro c g hp
+  cases c
+  case null => simp only [Plain] at hp; simp [normCodec, hp]
+  case f32double o =>
+    cases g <;> try (simp [normCodec]; done)
+    simp only [Plain] at hp
+    simp [normCodec, h.narrow_widen _ hp]
+  case array item o =>
+    cases g <;> try (simp [normCodec]; done)
+    simp only [Plain] at hp
+    simp only [normCodec, GoVal.slice.injEq]
+    exact map_eq_self fun x hx => ih item x (hp x hx)
+  case map val o =>
+    cases g <;> try (simp [normCodec]; done)
+    simp only [Plain] at hp
+    simp only [normCodec, GoVal.map.injEq, true_and, hp.1]
+    exact map_eq_self fun x hx => ih val x (hp.2 x hx)
+  case pointer c' =>
+    cases g <;> try (simp [normCodec]; done)
+    rename_i tgt
+    cases tgt with
+    | none =>
+      simp only [Plain] at hp
+      exact norm_ptr_nil_other env n c' hp
+    | some x =>
+      simp only [Plain] at hp
+      simp [normCodec, ih c' x hp]
+  case record z cs ts =>
+    cases g <;> try (simp [normCodec]; done)
+    rename_i fs
+    simp only [Plain] at hp
+    obtain ⟨h1, h2, h3⟩ := hp
+    simp only [normCodec, GoVal.struct.injEq]
+    exact normFieldsWith_plain _ (Plain env n) fs (fun c g hP => ih c g hP) cs ts z h1 h2.symm
+      (fun j hj => (h3 j hj).symm)
+  case unionOne c' k =>
+    simp only [Plain] at hp
+    by_cases hom : omits env c' g = true
+    · simp only [hom, if_true] at hp
+      simp [normCodec, hom, hp.symm]
+    · simp only [hom, if_false, Bool.false_eq_true] at hp
+      simp [normCodec, hom, ih c' g hp]
+  case timeString =>
+    cases g <;> try (simp [normCodec]; done)
+    simp only [Plain] at hp
+    simp [normCodec, normTime_printable env h _ hp]
+  case timeLong mult =>
+    cases g <;> try (simp [normCodec]; done)
+    simp only [Plain] at hp
+    obtain ⟨h1, h2, h3, h4, h5⟩ := hp
+    simp [normCodec, timeLong_plain env h mult _ h1 h2 h3 h4 h5]
+  case date =>
+    cases g <;> try (simp [normCodec]; done)
+    rename_i t
+    simp only [Plain] at hp
+    obtain ⟨h1, h2, h3⟩ := hp
+    simp only [normCodec, h.ofDays_eq, GoVal.time.injEq, Int.fdiv_eq_ediv_of_nonneg _ (show (0 : Int) ≤ 86400 by decide)]
+    cases t with
+    | mk u ns off =>
+      simp only at h1 h2 h3 ⊢
+      subst h1 h2
+      simp only [TimeVal.mk.injEq, and_true]
+      omega
+  case nullw k =>
+    cases g <;> try (simp [normCodec]; done)
+    rename_i valid inner
+    simp only [Plain] at hp
+    obtain ⟨hv, hp⟩ := hp
+    subst hv
+    cases k <;> cases inner <;> try (simp [normCodec]; done)
+    · obtain ⟨b, hb, rfl⟩ := hp
+      simp [normCodec, h.narrow_widen b hb]
+    · simp only at hp
+      simp [normCodec, normTime_printable env h _ hp]
+  all_goals (cases g <;> simp [normCodec])
+
+/-- **Identity on plain values**: a value without nil maps, nil slice/map pointers, omitted non-zero
+union members, invalid wrappers, sub-resolution or unprintable times is its own normal form — so by
+`roundTrip` it is read back exactly as written. -/
+theorem normCodec_plain (h : EnvLaws env) : ∀ (n : Nat) (c : Codec) (g : GoVal), Plain env n c g →
+    normCodec env n c g = g
+  | 0 => fun _ _ _ => by simp [normCodec]
+  | n + 1 => plain_step env h n (normCodec_plain h n)
+
 end
 
 end Avro
